@@ -197,6 +197,23 @@ def _sum_terms(f, o, depth=0):
     return terms
 
 
+def _derives_local(f, o, local):
+    fl = vf.get_flow(f)
+    p = vf.op_place(o)
+    if p is None:
+        return False
+    seen, stack = set(), [p[0]]
+    while stack:
+        l = stack.pop()
+        if l in seen:
+            continue
+        seen.add(l)
+        if l == local:
+            return True
+        stack.extend(fl.deps[l])
+    return False
+
+
 def closure_true_requires(g, x, db, allow_none=False):
     """In closure g every path that may return true takes the equal-edge of comparison x
     (or, with allow_none, is on the None arm of an Option test: 'filter only if an account is given')."""
@@ -432,4 +449,47 @@ def run(ctx):
     run.rule(R6, "refresh transitions follow the node's answer (present => Unspent, absent => Spent / Reverted)", floor=1)
     from .shared import refresh_transitions
     refresh_transitions(ctx, R6)
+    R7 = "C04.R7"
+    run.rule(R7, "the only records a refresh drops on age are unconfirmed coinbase candidates", floor=2)
+    co = ctx.fn(UPD + "clean_old_unconfirmed")
+    if co:
+        pushes = cfg.find_calls(co, "alloc::vec::Vec::<T, A>::push")
+        dels = cfg.find_calls(co, c.WOB + "delete")
+        held = len(pushes) == 1 and len(dels) == 1
+        if held:
+            pb = {pushes[0][0]}
+            # the selection is dominated by: status == Unconfirmed (true edge) and is_coinbase (true edge)
+            st_ok = False
+            for x in cfg.comparisons(co):
+                if x.op == "Eq":
+                    pl, pr = vf.producers(co, x.l), vf.producers(co, x.r)
+                    for a, b_ in ((pl, pr), (pr, pl)):
+                        if vf.has_field(a, OD, "status") and ("agg", c.LW + "types::OutputStatus", "Unconfirmed") in b_:
+                            if x.true_edges and cfg.must_pass(co, x.true_edges, pb)[0]:
+                                st_ok = True
+            cb_ok = False
+            for l in range(1, len(co.locals)):
+                if co.locals[l]["ty"] != "bool":
+                    continue
+                if vf.has_field(vf.producers(co, {"c": [l, []]}), OD, "is_coinbase"):
+                    g_ = cfg.local_guard(co, l)
+                    if g_.ok and cfg.must_pass(co, g_.ok, pb)[0]:
+                        cb_ok = True
+            # what is deleted is what was selected
+            sel = vf.strip_clones(co, pushes[0][1]["a"][0])
+            dd = vf.origins(co, dels[0][1]["a"][1])
+            from_sel = sel is not None and _derives_local(co, dels[0][1]["a"][1], sel)
+            held = st_ok and cb_ok and from_sel
+            run.instance(R7, {"fn": "clean_old_unconfirmed", "obligation": "selected for deletion only if status == Unconfirmed and is_coinbase", "status_guard": st_ok, "coinbase_guard": cb_ok, "deletes_selection": from_sel}, held=held)
+        else:
+            run.instance(R7, {"fn": "clean_old_unconfirmed", "obligation": "one selection (push) and one delete", "pushes": len(pushes), "deletes": len(dels)}, held=False)
+        if not held:
+            run.finding(Finding(R7, co.id, "the age-based clean-up can delete records other than unconfirmed coinbase candidates (pending change / received outputs would vanish)", site=co.loc()))
+        # no value-bearing effect other than delete
+        eb = ctx.eff.effect_blocks(co)
+        kinds = set().union(*eb.values()) if eb else set()
+        h = kinds <= {"delete_output"}
+        run.instance(R7, {"fn": "clean_old_unconfirmed", "obligation": "the clean-up only deletes", "effects": sorted(kinds)}, held=h)
+        if not h:
+            run.finding(Finding(R7, co.id, "the age-based clean-up has effects other than deleting the selected candidates: %s" % sorted(kinds), site=co.loc()))
     run.not_decided += ["equality with the node's UTXO set", "the ledger identity credits - debits = total + locked", "confirmation / maturity arithmetic"]
